@@ -537,17 +537,21 @@ theorem variance_formula (hc : 1 < s.count) (hck : s.cookie = 70391967513698304)
     have : (1 : K) < (s.count : K) := by exact_mod_cast hc
     intro e; linarith
   constructor
-  · simp only [cmb_datasummary_variance_dom, hck, true_and, and_true, gt_iff_lt, hc, if_true, hcast]
+  · -- whatever way the guard `count > 1` reaches the two obligations (enclosing if, or implications of a conditional store)
+    have h1 : 1 ≤ s.count := by omega
+    simp only [cmb_datasummary_variance_dom, hck, true_and, and_true, gt_iff_lt, hc, if_true, hcast, forall_const, h1]
     first
-      | exact ⟨by omega, hnz⟩
       | exact hnz
+      | exact ⟨by omega, hnz⟩
       | exact ⟨hnz, by omega⟩
+      | (simp [hnz])
   · simp only [cmb_datasummary_variance, gt_iff_lt, hc, if_true, hcast]
 
 theorem variance_small_count (hc : s.count ≤ 1) (hck : s.cookie = 70391967513698304) :
     cmb_datasummary_variance_dom s ∧ cmb_datasummary_variance s = 0 := by
   have hc' : ¬ 1 < s.count := by omega
   simp [cmb_datasummary_variance, cmb_datasummary_variance_dom, hc', hck]
+  try omega
 
 theorem kurtosis_formula (hc : 3 < s.count) (hck : s.cookie = 70391967513698304) :
     (cmb_datasummary_kurtosis_dom s ↔ s.m2 ≠ 0) ∧
